@@ -8,6 +8,7 @@ import (
 	"fmt"
 	"reflect"
 	"strconv"
+	"strings"
 	"time"
 
 	astisub "github.com/asticode/go-astisub"
@@ -26,14 +27,30 @@ type World struct {
 	origRg   map[int]*astisub.Region
 	textAtom map[string]int
 	Decorate bool
+	Scheme   int // how the even text atoms are laid out (see Build)
 }
 
 func NewWorld(unit time.Duration, decorate bool) *World {
 	return &World{Unit: unit, itemID: map[*astisub.Item]int{}, snap: map[int]*astisub.Item{},
-		origSt: map[int]*astisub.Style{}, origRg: map[int]*astisub.Region{}, textAtom: map[string]int{FillerText: -1}, Decorate: decorate}
+		origSt: map[int]*astisub.Style{}, origRg: map[int]*astisub.Region{},
+		textAtom: map[string]int{TextKey(&astisub.Item{Lines: []astisub.Line{{Items: []astisub.LineItem{{Text: FillerText}}}}}): -1}, Decorate: decorate}
 }
 
 func atomText(t int) string { return fmt.Sprintf("Text%d", t) }
+
+// TextKey is the harness's own notion of a cue's text: the texts of the runs with their line structure. It does not
+// go through Item.String(), which the library itself uses to compare texts.
+func TextKey(it *astisub.Item) string {
+	var b strings.Builder
+	for _, l := range it.Lines {
+		for _, li := range l.Items {
+			b.WriteString(li.Text)
+			b.WriteByte(0x1f)
+		}
+		b.WriteByte(0x1e)
+	}
+	return b.String()
+}
 
 // Build creates the Go value of an abstract list. nilMaps: leave Styles/Regions nil where the abstract says so.
 func (w *World) Build(a abs.Subs) *astisub.Subtitles {
@@ -91,9 +108,18 @@ func (w *World) Build(a abs.Subs) *astisub.Subtitles {
 			Style: styleRef(c.St), Region: regionRef(c.Rg)}
 		// an even atom is a two-line text whose characters are those of the odd atom before it: the texts
 		// differ only in their line structure
-		txt, second := atomText(c.T), ""
+		// (scheme 0); or the odd atom's line after an empty first line (scheme 1); or no text line at all (scheme 2,
+		// cues without run styles)
+		txt, second, lead, lineless := atomText(c.T), "", false, false
 		if c.T > 0 && c.T%2 == 0 {
-			txt, second = "Text", strconv.Itoa(c.T-1)
+			switch {
+			case w.Scheme == 1:
+				txt, lead = atomText(c.T-1), true
+			case w.Scheme == 2 && len(c.Rs) == 0:
+				lineless = true
+			default:
+				txt, second = "Text", strconv.Itoa(c.T-1)
+			}
 		}
 		if len(c.Rs) == 0 {
 			it.Lines = []astisub.Line{{Items: []astisub.LineItem{{Text: txt}}}}
@@ -112,7 +138,13 @@ func (w *World) Build(a abs.Subs) *astisub.Subtitles {
 		if second != "" {
 			it.Lines = append(it.Lines, astisub.Line{Items: []astisub.LineItem{{Text: second}}})
 		}
-		w.textAtom[it.String()] = c.T
+		if lead {
+			it.Lines = append([]astisub.Line{{Items: []astisub.LineItem{{Text: ""}}}}, it.Lines...)
+		}
+		if lineless {
+			it.Lines = nil
+		}
+		w.textAtom[TextKey(it)] = c.T
 		if w.Decorate {
 			// content that the operations must carry along untouched
 			it.Comments = []string{fmt.Sprintf("comment %d", c.ID)}
@@ -120,9 +152,13 @@ func (w *World) Build(a abs.Subs) *astisub.Subtitles {
 				col := "#ff0000"
 				it.InlineStyle = &astisub.StyleAttributes{SRTBold: true, SRTColor: &col, WebVTTAlign: "left"}
 			}
-			if c.ID%3 == 0 {
+			if c.ID%3 == 0 && len(it.Lines) > 0 {
 				it.Lines[0].VoiceName = fmt.Sprintf("voice%d", c.ID)
 				it.Lines[0].Items[0].InlineStyle = &astisub.StyleAttributes{SRTItalics: true}
+			}
+			if c.ID%2 == 0 && len(it.Lines) > 0 {
+				// an inline timestamp (WebVTT karaoke timing) is timing and content, not styling
+				it.Lines[len(it.Lines)-1].Items[0].StartAt = time.Duration(c.ID) * 100 * time.Millisecond
 			}
 		}
 		w.itemID[it] = c.ID
@@ -206,7 +242,7 @@ func (w *World) Project(s *astisub.Subtitles, stripped bool) abs.Subs {
 		c.ID = it.Index
 		c.Ptr = w.itemID[it]
 		c.S, c.E = w.toUnit(it.StartAt), w.toUnit(it.EndAt)
-		if t, ok := w.textAtom[it.String()]; ok {
+		if t, ok := w.textAtom[TextKey(it)]; ok {
 			c.T = t
 		} else {
 			c.T = -2
@@ -250,7 +286,7 @@ func (w *World) toUnit(d time.Duration) int {
 func (w *World) contentOK(it *astisub.Item, stripped bool) bool {
 	if it.Index == 0 {
 		// allocated by the operation without a source (ForceDuration's filler): content = placeholder text only
-		return it.String() == FillerText && it.Style == nil && it.Region == nil && it.InlineStyle == nil && len(it.Comments) == 0
+		return TextKey(it) == TextKey(&astisub.Item{Lines: []astisub.Line{{Items: []astisub.LineItem{{Text: FillerText}}}}}) && it.Style == nil && it.Region == nil && it.InlineStyle == nil && len(it.Comments) == 0
 	}
 	sn, ok := w.snap[it.Index]
 	if !ok {
@@ -273,6 +309,10 @@ func (w *World) contentOK(it *astisub.Item, stripped bool) bool {
 // Exec runs one case on the real code and returns the observed events.
 func Exec(n int, c abs.OpCase, unit time.Duration, decorate bool) []abs.OpEvent {
 	w := NewWorld(unit, decorate)
+	w.Scheme = n % 3
+	if c.Op == "optimize" || c.Op == "removestyling" || c.Op == "merge" {
+		w.Scheme = 0 // those lists are also written to files: an empty first line or no line at all is not representable there
+	}
 	c.Pre.Norm()
 	c.Pre2.Norm()
 	A := w.Build(c.Pre)
